@@ -79,7 +79,8 @@ def model_check_ledger(slice_, maxtx, mode, schedset, timeout=3000):
         raise common.MachineryError(f"model checking MC_Ledger failed (rc={rc}):\n{tail}")
     cov = tlc.parse_action_coverage(out)
     res["action_coverage"] = {k: v[1] for k, v in cov.items()}
-    need = ("Build", "Start", "Next", "Take", "Finish") if maxtx >= 3 else ("Build", "Start", "Next", "Finish")  # a second lot needs 3 transactions
+    # (a disposal spanning two lots needs 3 transactions, and an alphabet in which a disposal can exceed a lot: not T and C, whose disposals are of one unit)
+    need = ("Build", "Start", "Next", "Take", "Finish") if maxtx >= 3 and slice_ not in ("T", "C") else ("Build", "Start", "Next", "Finish")
     never = [a for a in need if cov.get(a, (0, 0))[1] == 0]
     if never:
         raise common.MachineryError(f"vacuity: actions never taken in MC_Ledger {slice_}/{maxtx}: {never}")
